@@ -348,6 +348,14 @@ def c12_script(rng, thorough):
         lines.append("validate c=%d" % c)
     edge = [2, 3, p - 3, p - 2]
     pairs = [(a, b) for a in edge for b in edge]
+    # scalars whose public key lies in a small subgroup (p - 1 = 2 * 3^2 * 7 * 11 * 31 * 151 * 331): 5^((p-1)/d) has order d, so the
+    # repeated squarings of the modular exponentiation run into short cycles (order 2: the public key p - 1, whose square is 1)
+    small = [(p - 1) // d for d in (2, 3, 6, 7, 9, 11, 31, 62, 151, 331)]
+    half = (p - 1) // 2
+    for s_ in small + [half - 1, half + 1]:
+        for other in (rng.randrange(2, p - 1) | 1, rng.randrange(2, p - 2) & ~1 or 2, rng.choice(edge), rng.choice(small)):
+            pairs.append((s_, other) if rng.random() < 0.5 else (other, s_))
+    pairs += [(half, 3), (3, half), (half, p - 2), (half, half)]
     for _ in range(40 if not thorough else 500):
         pairs.append((rng.choice([rng.randrange(2, p - 1), rng.randrange(2, 70000), rng.choice(edge)]), rng.randrange(2, p - 1)))
     # structured scalars: single bits, runs of ones, neighbours of powers of two (bit-position / carry slips in modexp)
@@ -424,7 +432,7 @@ def c12_drive(chk, lines, label):
 def run_c12(chk):
     thorough = chk.tier == "thorough"
     chk.level = "exploration"
-    chk.cov["rule"] = ("cases = candidate public values {0,1,2,3,p-2,p-1,p,p+1,2^31,2^32-1,...} plus seeded random ones on both sides of p; scalar pairs {2,3,p-3,p-2}^2 plus "
+    chk.cov["rule"] = ("cases = candidate public values {0,1,2,3,p-2,p-1,p,p+1,2^31,2^32-1,...} plus seeded random ones on both sides of p; scalar pairs {2,3,p-3,p-2}^2, scalars (p-1)/d whose public key has small order d (d=2: public key p-1) against odd/even partners, plus "
                        "seeded random pairs in [2,p-2]; pairs of real Nodes with random identity seeds and peer ids (incl. all-00/all-FF ids, seeds 0 and 2^32-1), PoW "
                        "difficulty {0,4,8}, both handshake orders; candidates offered to Node::perform_handshake with and without PoW. A case is distinct/non-trivial by "
                        "(operation, class of the value w.r.t. 1/p, order, PoW difficulty, outcome); every event is decided by TLC evaluating spec/DH.tla (+ Sha256/Hmac for the KDF count).")
